@@ -1,16 +1,250 @@
-import Nv.Model.C11
-import Nv.Spec.C11
-/-! C11 — property theorems (first milestone: witnesses only; the refinement proof follows). -/
+import Nv.Proofs.C11Step
+/-!
+C11 — property theorems: the implementation-shaped model of `tex.Buffer` (`Nv.Model.C11`, configuration `c`
+ranging over `Proved`) refines the abstract byte buffer (`Nv.Spec.C11`, = what `bytes.Buffer` does) on every
+operation sequence of the shared interface — same results, errors, panics and unread contents after every step —
+except `Unread*` issued while a `Grow` is the last operation that did not (re)assign `lastRead`
+(the property's own exclusion; pure observers `Len/Bytes/String` in between do not lift it).
+`ReWrite` and `NewSizedBuffer` have their own theorems. All statements are over all inputs and all histories.
+-/
 namespace Nv.C11
+open Spec
 
-/-- today's comparison (`r < utf8.RuneSelf` on the signed rune): `WriteRune(-1)` stores the single byte FF … -/
+/-- result of a step together with the unread contents after it (`Len` is its length) -/
+def implObs (c : Cfg) (i : St) (op : Op) : St × (Out × Bytes) :=
+  ((step c i op).1, ((step c i op).2, (step c i op).1.data))
+
+def specObs (s : SSt) (op : Op) : SSt × (Out × Bytes) :=
+  ((Spec.step s op).1, ((Spec.step s op).2, (Spec.step s op).1.data))
+
+/-- no `UnreadByte/UnreadRune` while tainted by a `Grow` (`t` = taint at the start of the list) -/
+def NoUnreadAfterGrow : Bool → List Op → Prop
+  | _, [] => True
+  | t, op :: rest => ¬ (t = true ∧ isUnread op = true) ∧ NoUnreadAfterGrow (taintAfter t op) rest
+
+instance : ∀ t ops, Decidable (NoUnreadAfterGrow t ops)
+  | _, [] => isTrue trivial
+  | t, op :: rest => by
+    unfold NoUnreadAfterGrow
+    have := instDecidableNoUnreadAfterGrow (taintAfter t op) rest
+    exact inferInstance
+
+/-- memory suffices along the run: the model reports `ErrTooLarge` only where the request itself exceeds the
+    allocation limit (a `Grow(n)` with `n > allocLimit`) -/
+def MemOk (c : Cfg) : St → List Op → Prop
+  | _, [] => True
+  | i, op :: rest => ((step c i op).2 = .panic .tooLarge → opTooLarge op) ∧ MemOk c (step c i op).1 rest
+
+instance (c : Cfg) : ∀ i ops, Decidable (MemOk c i ops)
+  | _, [] => isTrue trivial
+  | i, op :: rest => by
+    unfold MemOk
+    have := instDecidableMemOk c (step c i op).1 rest
+    exact inferInstance
+
+/-- **refinement, one step**: from related states a shared operation yields the same output and related states -/
+theorem texbuf_step_refines (c : Cfg) (hc : Proved c) {t : Bool} {i : St} {s : SSt} (R : Rel t i s) (op : Op)
+    (hcom : Common c op) (hun : ¬ (t = true ∧ isUnread op = true))
+    (hmem : (step c i op).2 = .panic .tooLarge → opTooLarge op) :
+    (step c i op).2 = (Spec.step s op).2 ∧ (step c i op).1.data = (Spec.step s op).1.data ∧
+    Rel (taintAfter t op) (step c i op).1 (Spec.step s op).1 := by
+  have k := sim_step hc R op hcom hun hmem
+  exact ⟨k.1, by rw [St.data, k.2.data], k.2⟩
+
+/-- **refinement, all histories**, from any pair of related states -/
+theorem texbuf_refines_from (c : Cfg) (hc : Proved c) :
+    ∀ (ops : List Op) (t : Bool) (i : St) (s : SSt), Rel t i s → (∀ op ∈ ops, Common c op) →
+      NoUnreadAfterGrow t ops → MemOk c i ops → outs (implObs c) i ops = outs specObs s ops
+  | [], _, _, _, _, _, _, _ => rfl
+  | op :: rest, t, i, s, R, hcom, hun, hmem => by
+    have k := texbuf_step_refines c hc R op (hcom op (by simp)) hun.1 hmem.1
+    simp only [outs_cons, implObs, specObs]
+    rw [k.1, k.2.1]
+    congr 1
+    exact texbuf_refines_from c hc rest _ _ _ k.2.2 (fun o ho => hcom o (by simp [ho])) hun.2 hmem.2
+
+/-- **C11, main theorem**: a zero `tex.Buffer` and a zero `bytes.Buffer` driven by the same operations -/
+theorem texbuf_refines (c : Cfg) (hc : Proved c) (ops : List Op) (hcom : ∀ op ∈ ops, Common c op)
+    (hun : NoUnreadAfterGrow false ops) (hmem : MemOk c St.zero ops) :
+    outs (implObs c) St.zero ops = outs specObs SSt.empty ops :=
+  texbuf_refines_from c hc ops false _ _ rel_zero hcom hun hmem
+
+/-- the same from `NewBuffer(content)` with any spare capacity -/
+theorem texbuf_refines_newBuffer (c : Cfg) (hc : Proved c) (content : Bytes) (extra : Nat)
+    (hfit : content.length + extra ≤ allocLimit) (ops : List Op) (hcom : ∀ op ∈ ops, Common c op)
+    (hun : NoUnreadAfterGrow false ops) (hmem : MemOk c (St.ofBytes content extra) ops) :
+    outs (implObs c) (St.ofBytes content extra) ops = outs specObs (SSt.ofBytes content) ops :=
+  texbuf_refines_from c hc ops false _ _
+    ⟨⟨by simp [St.ofBytes], by simp [St.ofBytes], by simpa [St.ofBytes] using hfit, by simp [St.ofBytes]⟩,
+     by simp [St.ofBytes, SSt.ofBytes], fun _ => rfl⟩ hcom hun hmem
+
+/-- `NewSizedBuffer(size)`: an empty buffer of at least (here: exactly) the requested capacity, which then behaves
+    like an empty `bytes.Buffer` -/
+theorem sized_buffer (size : Nat) (hfit : size ≤ allocLimit) :
+    (St.sized size).data = [] ∧ size ≤ (St.sized size).cap ∧ Rel false (St.sized size) SSt.empty :=
+  ⟨rfl, Nat.le_refl _, ⟨by simp [St.sized], by simp [St.sized], by simpa [St.sized] using hfit, by simp [St.sized]⟩,
+    rfl, fun _ => rfl⟩
+
+theorem texbuf_refines_sized (c : Cfg) (hc : Proved c) (size : Nat) (hfit : size ≤ allocLimit) (ops : List Op)
+    (hcom : ∀ op ∈ ops, Common c op) (hun : NoUnreadAfterGrow false ops) (hmem : MemOk c (St.sized size) ops) :
+    outs (implObs c) (St.sized size) ops = outs specObs SSt.empty ops :=
+  texbuf_refines_from c hc ops false _ _ (sized_buffer size hfit).2.2 hcom hun hmem
+
+/-- each of the five growth paths keeps the unread bytes in front of the write index and makes room for `n` more;
+    a failed growth (`ErrTooLarge`) leaves them untouched. Holds for every configuration. -/
+theorem texbuf_grow_paths (c : Cfg) (hs : c.small ≤ allocLimit) (s : St) (n : Nat) (h : Inv s) :
+    match grow c s n with
+    | (s', some m) => Inv s' ∧ s'.off ≤ m ∧ s'.buf.length = m + n ∧ (s'.buf.take m).drop s'.off = s.data
+    | (s', none) => Inv s' ∧ s'.data = s.data := by
+  cases hg : grow c s n with
+  | mk s' r =>
+    cases r with
+    | some m => have g := grow_some hs h hg; exact ⟨g.inv, g.off_le, g.len, g.data⟩
+    | none => have k := grow_none h hg; exact ⟨k.inv, k.data⟩
+
+/-- the storage invariant `off ≤ len ≤ cap` survives every shared operation (no hypothesis on memory or taint) -/
+theorem texbuf_inv_step (c : Cfg) (hc : Proved c) {t : Bool} {i : St} {s : SSt} (R : Rel t i s) (op : Op)
+    (hcom : Common c op) (hun : ¬ (t = true ∧ isUnread op = true))
+    (hmem : (step c i op).2 = .panic .tooLarge → opTooLarge op) : Inv (step c i op).1 :=
+  (sim_step hc R op hcom hun hmem).2.inv
+
+
+/-! ### the exclusion in the property's literal wording -/
+
+def isGrow : Op → Bool
+  | .grow _ => true
+  | _ => false
+
+def isObserver : Op → Bool
+  | .len | .bytes | .string => true
+  | _ => false
+
+/-- "no UnreadByte/UnreadRune issued directly after Grow" -/
+def NoUnreadDirectlyAfterGrow : List Op → Prop
+  | a :: b :: rest => ¬ (isGrow a = true ∧ isUnread b = true) ∧ NoUnreadDirectlyAfterGrow (b :: rest)
+  | _ => True
+
+theorem taintAfter_of_mutator (c : Cfg) (t : Bool) (op : Op) (hcom : Common c op) (hobs : isObserver op = false) :
+    taintAfter t op = isGrow op := by
+  cases op <;> simp_all [taintAfter, isGrow, isObserver, Common]
+
+/-- for scripts of mutating operations the literal wording is exactly the taint condition -/
+theorem noUnreadAfterGrow_of_literal (c : Cfg) :
+    ∀ (ops : List Op) (t : Bool), (∀ op ∈ ops, Common c op ∧ isObserver op = false) →
+      NoUnreadDirectlyAfterGrow ops → (t = true → ∀ op ∈ ops.head?, isUnread op = false) → NoUnreadAfterGrow t ops
+  | [], _, _, _, _ => trivial
+  | [op], t, _, _, ht => ⟨fun h => by have := ht h.1 op (by simp); simp [this] at h, trivial⟩
+  | a :: b :: rest, t, hall, hlit, ht => by
+    refine ⟨fun h => by have := ht h.1 a (by simp); simp [this] at h, ?_⟩
+    apply noUnreadAfterGrow_of_literal c (b :: rest) _ (fun o ho => hall o (by simp [ho])) hlit.2
+    intro hta o ho
+    simp only [List.head?_cons, Option.mem_def, Option.some.injEq] at ho
+    subst ho
+    rw [taintAfter_of_mutator c t a (hall a (by simp)).1 (hall a (by simp)).2] at hta
+    cases hu : isUnread b with
+    | false => rfl
+    | true => exact absurd ⟨hta, hu⟩ hlit.1
+
+/-- **C11 in the property's wording**: sequences of mutating operations with no Unread* directly after a Grow -/
+theorem texbuf_refines_literal (c : Cfg) (hc : Proved c) (ops : List Op)
+    (hcom : ∀ op ∈ ops, Common c op ∧ isObserver op = false)
+    (hun : NoUnreadDirectlyAfterGrow ops) (hmem : MemOk c St.zero ops) :
+    outs (implObs c) St.zero ops = outs specObs SSt.empty ops :=
+  texbuf_refines c hc ops (fun o ho => (hcom o ho).1)
+    (noUnreadAfterGrow_of_literal c ops false hcom hun (fun h => by cases h)) hmem
+
+/-! ### ReWrite -/
+
+/-- `ReWrite(pos, p)` with `0 ≤ pos ≤ len(buf)`: storage index `j` holds `p[j-pos]` for `pos ≤ j < pos+|p|`
+    (as far as the storage reaches) and is unchanged elsewhere; length, offset, capacity, lastRead untouched -/
+theorem rewrite_exact (s : St) (pos : Nat) (p : Bytes) (hpos : pos ≤ s.buf.length) :
+    (rewrite s pos p).2 = .ok ∧
+    (rewrite s pos p).1.buf.length = s.buf.length ∧
+    (rewrite s pos p).1.off = s.off ∧ (rewrite s pos p).1.cap = s.cap ∧
+    (rewrite s pos p).1.lastRead = s.lastRead ∧
+    ∀ j, j < s.buf.length →
+      (rewrite s pos p).1.buf[j]? = if pos ≤ j ∧ j < pos + p.length then p[j - pos]? else s.buf[j]? := by
+  have hc : ¬ ((pos : Int) < 0 ∨ (pos : Int) > (s.buf.length : Int)) := by omega
+  unfold rewrite
+  simp only [hc, if_false, Int.toNat_natCast]
+  have hw : (p.take (s.buf.length - pos)).length = min (s.buf.length - pos) p.length := List.length_take
+  refine ⟨trivial, ?_, trivial, trivial, trivial, ?_⟩
+  · simp only [List.length_append, List.length_take, List.length_drop]; omega
+  · intro j hj
+    by_cases h1 : j < pos
+    · have : ¬ (pos ≤ j ∧ j < pos + p.length) := by omega
+      rw [if_neg this, List.append_assoc, List.getElem?_append_left (by simp; omega), List.getElem?_take, if_pos h1]
+    · by_cases h2 : j < pos + p.length
+      · have : pos ≤ j ∧ j < pos + p.length := by omega
+        rw [if_pos this, List.append_assoc, List.getElem?_append_right (by simp; omega),
+          List.getElem?_append_left (by simp; omega)]
+        simp only [List.length_take, Nat.min_eq_left hpos, List.getElem?_take]
+        rw [if_pos (by omega)]
+      · have : ¬ (pos ≤ j ∧ j < pos + p.length) := by omega
+        rw [if_neg this, List.getElem?_append_right (by simp; omega), List.getElem?_drop]
+        congr 1
+        simp only [List.length_append, List.length_take]
+        omega
+
+/-- out-of-range positions panic (slice bounds) and change nothing -/
+theorem rewrite_out_of_range (s : St) (pos : Int) (p : Bytes) (h : pos < 0 ∨ pos > (s.buf.length : Int)) :
+    rewrite s pos p = (s, .panic .sliceBounds) := by
+  unfold rewrite; simp only [h, if_true]
+
+/-! ### non-vacuity -/
+
+example : Proved ⟨.unsigned, .half, 64, 512⟩ := by decide
+example : Proved ⟨.unsigned, .full, 64, 512⟩ := by decide
+
+def exampleOps : List Op :=
+  [.write [1, 2, 0xE2, 0x82, 0xAC], .readByte, .unreadByte, .grow 100, .len, .writeRune 0x20AC, .read 2, .readRune,
+   .unreadRune, .readFrom ⟨[9, 8, 7], [1, 0], 5, .eof, false⟩, .writeTo (.short 2), .truncate 3, .next 1, .unreadByte, .bytes]
+
+/-- a script touching every clause satisfies the hypotheses of `texbuf_refines` … -/
+example : (∀ op ∈ exampleOps, Common ⟨.unsigned, .half, 64, 512⟩ op) ∧ NoUnreadAfterGrow false exampleOps ∧
+    MemOk ⟨.unsigned, .half, 64, 512⟩ St.zero exampleOps := by decide
+
+/-- … and ends with the expected unread bytes -/
+example : (final (implObs ⟨.unsigned, .half, 64, 512⟩) St.zero exampleOps).data = [0xAC, 0xE2, 0x82] := by decide
+
+example : (64 : Nat) ≤ allocLimit := by decide
+example : Rel false St.zero SSt.empty := rel_zero
+example : Rel false (St.sized 16) SSt.empty := (sized_buffer 16 (by decide)).2.2
+/-- ReWrite of the length prefix of a frame, as the callers in mpb use it -/
+example : (rewrite ⟨[0, 0, 1, 2, 3], 0, 8, 0, false⟩ 0 [0, 3]).1.buf = [0, 3, 1, 2, 3] := by decide
+/-- ReWrite addresses the storage from its start: after one byte was read, position 1 is the first unread byte -/
+example : (rewrite ⟨[9, 1, 2], 1, 8, -1, false⟩ 1 [7]).1.data = [7, 2] := by decide
+example : NoUnreadDirectlyAfterGrow [.write [1], .readByte, .grow 3, .writeByte 2, .unreadByte] := by
+  simp [NoUnreadDirectlyAfterGrow, isGrow, isUnread]
+
+/-- a reader that fills whatever space it is offered (`bytes.Reader`): with `MinRead = 4` its 11 bytes take three
+    `Read` calls and three reallocations (4, 12, 28), and arrive whole -/
+example : outs (implObs ⟨.unsigned, .half, 2, 4⟩) St.zero [.readFrom ⟨[1, 2, 3, 4, 5, 6, 7, 8, 9, 10, 11], [], 0, .eof, true⟩, .cap]
+    = [(.nErr 11 .nil, [1, 2, 3, 4, 5, 6, 7, 8, 9, 10, 11]), (.int 28, [1, 2, 3, 4, 5, 6, 7, 8, 9, 10, 11])] := by decide
+
+/-! ### today's configuration: the property is false of it -/
+
+/-- `r < utf8.RuneSelf` on the signed rune: `WriteRune(-1)` stores the single byte FF … -/
 theorem witness_signed_negative_rune :
-    ((step ⟨.signed, .half, 64, 512⟩ St.zero (.writeRune (-1))).1.data, (step ⟨.signed, .half, 64, 512⟩ St.zero (.writeRune (-1))).2)
-      = ([0xFF], .nErr 1 .nil) := by decide
+    outs (implObs ⟨.signed, .half, 64, 512⟩) St.zero [.writeRune (-1)] = [(.nErr 1 .nil, [0xFF])] := by decide
 
-/-- … while the abstract buffer (bytes.Buffer) stores U+FFFD -/
+/-- … while the abstract buffer (`bytes.Buffer`) stores U+FFFD -/
 theorem witness_spec_negative_rune :
-    ((Spec.step Spec.SSt.empty (.writeRune (-1))).1.data, (Spec.step Spec.SSt.empty (.writeRune (-1))).2)
-      = ([0xEF, 0xBF, 0xBD], .nErr 3 .nil) := by decide
+    outs specObs SSt.empty [.writeRune (-1)] = [(.nErr 3 .nil, [0xEF, 0xBF, 0xBD])] := by decide
+
+theorem not_refines_signed :
+    ¬ (∀ ops : List Op, (∀ op ∈ ops, Common ⟨.signed, .half, 64, 512⟩ op) → NoUnreadAfterGrow false ops →
+        MemOk ⟨.signed, .half, 64, 512⟩ St.zero ops →
+        outs (implObs ⟨.signed, .half, 64, 512⟩) St.zero ops = outs specObs SSt.empty ops) := by
+  intro h
+  have := h [.writeRune (-1)] (by decide) (by decide) (by decide)
+  rw [witness_signed_negative_rune, witness_spec_negative_rune] at this
+  cases this
+
+/-- the excluded corner is real: after `Grow` moved the data to the front, `UnreadByte` reports success
+    without restoring the byte (whether a `bytes.Buffer` does depends on its capacity policy) -/
+theorem witness_unread_after_grow :
+    outs (implObs ⟨.unsigned, .half, 64, 512⟩) St.zero [.write [1, 2, 3], .readByte, .grow 64, .unreadByte]
+      ≠ outs specObs SSt.empty [.write [1, 2, 3], .readByte, .grow 64, .unreadByte] := by decide
 
 end Nv.C11
